@@ -567,17 +567,16 @@ func (e *escaper) computeOutCtx(c context, t *template.Template) context {
 		// Use c1 as the error context if neither assumption worked.
 	}
 	if !ok && c1.state != stateError {
-		return context{
+		c1 = context{
 			state: stateError,
 			err:   errorf(ErrOutputContext, t.Tree.Root, 0, "cannot compute output context for template %s", t.Name()),
 		}
 	}
-	if ok {
-		// Memoize the computed output context. escapeTemplateBody leaves the assumed one (the
-		// start context) in e.output, which made every later call of a template that ends in a
-		// different context than it starts in continue in the wrong context.
-		e.output[t.Name()] = c1
-	}
+	// Memoize the computed output context, or the error. escapeTemplateBody leaves the assumed
+	// context in e.output, which made every later call of a template that ends in a different
+	// context than it starts in continue in the wrong context, and made later callers of a
+	// template without a consistent output context accept it although it was never rewritten.
+	e.output[t.Name()] = c1
 	return c1
 }
 
